@@ -1,10 +1,15 @@
 // shared by U7a (leaves) and U7 (state machine): writer types cut verbatim + their ghost views
 // ---- types of the writer, cut verbatim
+//@include shims/zipcrypto_spec.rs
 pub mod zipcrypto {
 use vstd::prelude::*;
 use super::*;
 use std::num::Wrapping;
 //@item src/zipcrypto.rs | struct ZipCryptoKeys
+impl ZipCryptoKeys {
+    // ghost: the three keys as numbers (same view as in unit U10)
+    pub open spec fn view(&self) -> Keys { Keys { k0: w32(self.key_0), k1: w32(self.key_1), k2: w32(self.key_2) } }
+}
 //@item src/zipcrypto.rs | struct ZipCryptoWriter
 // ghost: the buffering ZipCrypto writer is not a device
 impl<W> Dev for ZipCryptoWriter<W> {
